@@ -135,6 +135,14 @@ def _impl(tier, seed, search):
             ok2, us2 = L.noraise('unittwist:idempotent', lambda: b.unittwist(us), dict(S=S), 'unittwist twice')
             if ok2 and us2 is not None and (np.linalg.norm(w) > 100 * 2.2e-16 or np.linalg.norm(w) == 0): L.close('unittwist:idempotent', us2, us, TOL, max(1.0, float(np.max(np.abs(us)))), dict(S=S))
             L.check('unittwist:isunittwist', bool(b.isunittwist(us, tol=100)) or not (np.linalg.norm(w) > 100 * 2.2e-16 or np.linalg.norm(w) == 0), dict(S=S), 'unittwist result is not a unit twist')
+        # the class property on twists of unit Euclidean length (|S| = 1 is not "unit twist": the rotational part must be unit)
+        if np.linalg.norm(w) > 1e-6 and np.linalg.norm(vv) > 0:
+            from spatialmath import Twist3 as Tw3_
+            for Sx in (S / np.linalg.norm(S), np.r_[0.6, 0, 0, 0.8, 0, 0] * float(g.choice([-1, 1]))):
+                ok, ru = L.noraise('Twist3.unit', lambda: np.asarray(Tw3_(Sx).unit().S if callable(getattr(Tw3_(Sx), 'unit')) else Tw3_(Sx).unit.S, float), dict(S=Sx), 'Twist3.unit', sig='Twist3.unit:raises')
+                if ok:
+                    L.close('Twist3.unit:unit-rotational-part', float(np.linalg.norm(ru[3:])), 1.0, TOL, 1.0, dict(S=Sx), what='Twist3.unit of a twist with |S| = 1 does not have a unit rotational part', sig='Twist3.unit')
+                    L.close('Twist3.unit=unittwist', ru, b.unittwist(Sx), TOL, max(1.0, float(np.max(np.abs(ru)))), dict(S=Sx), sig='Twist3.unit')
         ok, r = L.noraise('unittwist_norm', lambda: b.unittwist_norm(S), dict(S=S), 'unittwist_norm')
         if ok and r[0] is not None and us is not None:
             L.close('unittwist_norm', r[0] * r[1], S, TOL, float(np.max(np.abs(S))), dict(S=S))
